@@ -1,8 +1,12 @@
 package main
 
 import (
+	"bytes"
 	"encoding/json"
 	"fmt"
+	"io"
+	mbits "math/bits"
+	"os"
 	"regexp"
 	"strconv"
 	"strings"
@@ -382,6 +386,60 @@ func runC17(c *Ctx) {
 		if after := canon(goLoad(data)); after != before {
 			c.Violate(Finding{Desc: "a configuration returned by an earlier load was modified by its caller, and a later load of the same input returns the modified content", Key: "load-shares-state",
 				Input: J{"data": string(data)}, Go: J{"firstLoad": before, "loadAfterTheCallerModifiedTheFirstResult": after}})
+		}
+	}
+	// the three entry points (data, reader, file) load the same bytes the same way — also for large documents (a configuration
+	// with tens of thousands of exemptions is legal), with `defaults` stated after the long list
+	{
+		tmp, _ := os.MkdirTemp("", "c17")
+		defer os.RemoveAll(tmp)
+		mkBig := func(n int, yamlForm bool) []byte {
+			var names []string
+			for i := 0; i < n; i++ {
+				names = append(names, fmt.Sprintf("team-%06d-namespace-with-a-long-name-%06d", i, i))
+			}
+			if yamlForm {
+				var b strings.Builder
+				b.WriteString("apiVersion: pod-security.admission.config.k8s.io/v1\nkind: PodSecurityConfiguration\nexemptions:\n  namespaces:\n")
+				for _, nm := range names {
+					b.WriteString("  - " + nm + "\n")
+				}
+				b.WriteString("defaults:\n  enforce: restricted\n  enforce-version: v1.25\n")
+				return []byte(b.String())
+			}
+			doc := map[string]any{"apiVersion": "pod-security.admission.config.k8s.io/v1", "kind": "PodSecurityConfiguration",
+				"exemptions": map[string]any{"namespaces": names}, "defaults": map[string]any{"enforce": "restricted", "enforce-version": "v1.25"}}
+			b, _ := json.Marshal(doc)
+			return b
+		}
+		docs := [][]byte{nil, []byte(renderJSON(allDefaults)), mkBig(10, true), mkBig(10, false)}
+		for _, n := range []int{2000, 19000, 19100, 22000, 45000} { // ~100 KiB, just under / over 1 MiB, well over 1 MiB, over 2 MiB
+			docs = append(docs, mkBig(n, true), mkBig(n, false))
+		}
+		for i, data := range docs {
+			want := goLoad(data)
+			path := fmt.Sprintf("%s/doc-%d", tmp, i)
+			os.WriteFile(path, data, 0o644)
+			viaReader, viaFile := cfgOut{OK: false}, cfgOut{OK: false}
+			if cfg, err := load.LoadFromReader(struct{ io.Reader }{bytes.NewReader(data)}); err == nil {
+				viaReader = describeCfg(cfg)
+			}
+			if data == nil {
+				path = ""
+			}
+			if cfg, err := load.LoadFromFile(path); err == nil {
+				viaFile = describeCfg(cfg)
+			}
+			c.Eval(3)
+			c.Tag(fmt.Sprintf("entryPoints.bytes~2^%d", mbits.Len(uint(len(data)))))
+			in := J{"bytes": len(data), "head": trunc(string(data), 200)}
+			if canon(viaReader) != canon(want) || canon(viaFile) != canon(want) {
+				c.Violate(Finding{Desc: fmt.Sprintf("the same %d bytes load differently through LoadFromData, LoadFromReader and LoadFromFile", len(data)), Key: "entry-points-differ", Input: in,
+					Go: J{"data": trunc(canon(want), 600), "reader": trunc(canon(viaReader), 600), "file": trunc(canon(viaFile), 600)}})
+			}
+			if len(data) > 1000 && (!want.OK || want.Cfg["enforce"] != "restricted" || want.Cfg["enforceVersion"] != "v1.25" || len(want.Cfg["namespaces"].([]string)) < 10) {
+				c.Violate(Finding{Desc: "a large, well-formed configuration is not loaded with the content it states", Key: "large-config", Input: in, Go: trunc(canon(want), 600)})
+			}
 		}
 	}
 	// directed documents: every catalogued apiVersion (served and unserved) on a minimal and on a full document
